@@ -227,6 +227,9 @@ def r2_holdout(ctx, fq, plate_balanced):
     sites = [_S(kw, label) for kw, label in common.screen_constructions(ctx, f)]
     ctx.need(len(sites) == 2, f"{f.site()}: expected two Screen(...) constructions, found {len(sites)}")
     env = single_defs(f.node)
+    from engine.astutil import conditional_defs
+    # (a local chosen by `if c: x = A else: x = B` reads as the conditional value `A if c else B`)
+    env.update({k: v for k, v in conditional_defs(f.node.body).items() if k not in env and isinstance(v, ast.IfExp)})
     S = f.params[0]
     N = Norm(strict=False)
     sel = []
